@@ -20,6 +20,10 @@
      still be delivered (over-approximated: remaining lines MAY still be read after close);
    * hSet.dispatch runs the handlers in goroutines and waits for them: the waiting caller and
      its (single) handler are fused into one thread — the caller does nothing but wait;
+   * handlers dispatched by the event loop only call Raw and Connected(); a handler that
+     calls Close, Connect, Enable/DisableStateTracking (which take conn.mu) while a teardown
+     waits for the loop blocks it — Close-from-handler is outside the claim of C07, the others
+     are a documented limitation (notes/design-C07.md);
    * adjacent statements under conn.mu whose intermediate states no lock-free reader can tell
      apart are fused (connected=false; sock.Close(); die()  |  postConnect; connected=true). *)
 From Coq Require Import List Arith Bool.
@@ -131,46 +135,43 @@ Record St := mkSt {
   srv_out : gen -> nat;
   ticks : gen -> nat;
   wg : nat;
-  done_ : gen -> bool;
   pcs : Thr -> pc;
   hist : list Ev }.
 
 Definition set_connected (v : bool) (s : St) : St :=
-  {| connected := v; mu := mu s; cur := cur s; nq := nq s; in_ref := in_ref s; out_ref := out_ref s; inq := inq s; outq := outq s; cancelled := cancelled s; sock_closed := sock_closed s; srv_in := srv_in s; srv_eof := srv_eof s; srv_out := srv_out s; ticks := ticks s; wg := wg s; done_ := done_ s; pcs := pcs s; hist := hist s |}.
+  {| connected := v; mu := mu s; cur := cur s; nq := nq s; in_ref := in_ref s; out_ref := out_ref s; inq := inq s; outq := outq s; cancelled := cancelled s; sock_closed := sock_closed s; srv_in := srv_in s; srv_eof := srv_eof s; srv_out := srv_out s; ticks := ticks s; wg := wg s; pcs := pcs s; hist := hist s |}.
 Definition set_mu (v : option Thr) (s : St) : St :=
-  {| connected := connected s; mu := v; cur := cur s; nq := nq s; in_ref := in_ref s; out_ref := out_ref s; inq := inq s; outq := outq s; cancelled := cancelled s; sock_closed := sock_closed s; srv_in := srv_in s; srv_eof := srv_eof s; srv_out := srv_out s; ticks := ticks s; wg := wg s; done_ := done_ s; pcs := pcs s; hist := hist s |}.
+  {| connected := connected s; mu := v; cur := cur s; nq := nq s; in_ref := in_ref s; out_ref := out_ref s; inq := inq s; outq := outq s; cancelled := cancelled s; sock_closed := sock_closed s; srv_in := srv_in s; srv_eof := srv_eof s; srv_out := srv_out s; ticks := ticks s; wg := wg s; pcs := pcs s; hist := hist s |}.
 Definition set_cur (v : gen) (s : St) : St :=
-  {| connected := connected s; mu := mu s; cur := v; nq := nq s; in_ref := in_ref s; out_ref := out_ref s; inq := inq s; outq := outq s; cancelled := cancelled s; sock_closed := sock_closed s; srv_in := srv_in s; srv_eof := srv_eof s; srv_out := srv_out s; ticks := ticks s; wg := wg s; done_ := done_ s; pcs := pcs s; hist := hist s |}.
+  {| connected := connected s; mu := mu s; cur := v; nq := nq s; in_ref := in_ref s; out_ref := out_ref s; inq := inq s; outq := outq s; cancelled := cancelled s; sock_closed := sock_closed s; srv_in := srv_in s; srv_eof := srv_eof s; srv_out := srv_out s; ticks := ticks s; wg := wg s; pcs := pcs s; hist := hist s |}.
 Definition set_nq (v : gen) (s : St) : St :=
-  {| connected := connected s; mu := mu s; cur := cur s; nq := v; in_ref := in_ref s; out_ref := out_ref s; inq := inq s; outq := outq s; cancelled := cancelled s; sock_closed := sock_closed s; srv_in := srv_in s; srv_eof := srv_eof s; srv_out := srv_out s; ticks := ticks s; wg := wg s; done_ := done_ s; pcs := pcs s; hist := hist s |}.
+  {| connected := connected s; mu := mu s; cur := cur s; nq := v; in_ref := in_ref s; out_ref := out_ref s; inq := inq s; outq := outq s; cancelled := cancelled s; sock_closed := sock_closed s; srv_in := srv_in s; srv_eof := srv_eof s; srv_out := srv_out s; ticks := ticks s; wg := wg s; pcs := pcs s; hist := hist s |}.
 Definition set_in_ref (v : gen) (s : St) : St :=
-  {| connected := connected s; mu := mu s; cur := cur s; nq := nq s; in_ref := v; out_ref := out_ref s; inq := inq s; outq := outq s; cancelled := cancelled s; sock_closed := sock_closed s; srv_in := srv_in s; srv_eof := srv_eof s; srv_out := srv_out s; ticks := ticks s; wg := wg s; done_ := done_ s; pcs := pcs s; hist := hist s |}.
+  {| connected := connected s; mu := mu s; cur := cur s; nq := nq s; in_ref := v; out_ref := out_ref s; inq := inq s; outq := outq s; cancelled := cancelled s; sock_closed := sock_closed s; srv_in := srv_in s; srv_eof := srv_eof s; srv_out := srv_out s; ticks := ticks s; wg := wg s; pcs := pcs s; hist := hist s |}.
 Definition set_out_ref (v : gen) (s : St) : St :=
-  {| connected := connected s; mu := mu s; cur := cur s; nq := nq s; in_ref := in_ref s; out_ref := v; inq := inq s; outq := outq s; cancelled := cancelled s; sock_closed := sock_closed s; srv_in := srv_in s; srv_eof := srv_eof s; srv_out := srv_out s; ticks := ticks s; wg := wg s; done_ := done_ s; pcs := pcs s; hist := hist s |}.
+  {| connected := connected s; mu := mu s; cur := cur s; nq := nq s; in_ref := in_ref s; out_ref := v; inq := inq s; outq := outq s; cancelled := cancelled s; sock_closed := sock_closed s; srv_in := srv_in s; srv_eof := srv_eof s; srv_out := srv_out s; ticks := ticks s; wg := wg s; pcs := pcs s; hist := hist s |}.
 Definition set_inq (v : gen -> nat) (s : St) : St :=
-  {| connected := connected s; mu := mu s; cur := cur s; nq := nq s; in_ref := in_ref s; out_ref := out_ref s; inq := v; outq := outq s; cancelled := cancelled s; sock_closed := sock_closed s; srv_in := srv_in s; srv_eof := srv_eof s; srv_out := srv_out s; ticks := ticks s; wg := wg s; done_ := done_ s; pcs := pcs s; hist := hist s |}.
+  {| connected := connected s; mu := mu s; cur := cur s; nq := nq s; in_ref := in_ref s; out_ref := out_ref s; inq := v; outq := outq s; cancelled := cancelled s; sock_closed := sock_closed s; srv_in := srv_in s; srv_eof := srv_eof s; srv_out := srv_out s; ticks := ticks s; wg := wg s; pcs := pcs s; hist := hist s |}.
 Definition set_outq (v : gen -> nat) (s : St) : St :=
-  {| connected := connected s; mu := mu s; cur := cur s; nq := nq s; in_ref := in_ref s; out_ref := out_ref s; inq := inq s; outq := v; cancelled := cancelled s; sock_closed := sock_closed s; srv_in := srv_in s; srv_eof := srv_eof s; srv_out := srv_out s; ticks := ticks s; wg := wg s; done_ := done_ s; pcs := pcs s; hist := hist s |}.
+  {| connected := connected s; mu := mu s; cur := cur s; nq := nq s; in_ref := in_ref s; out_ref := out_ref s; inq := inq s; outq := v; cancelled := cancelled s; sock_closed := sock_closed s; srv_in := srv_in s; srv_eof := srv_eof s; srv_out := srv_out s; ticks := ticks s; wg := wg s; pcs := pcs s; hist := hist s |}.
 Definition set_cancelled (v : gen -> bool) (s : St) : St :=
-  {| connected := connected s; mu := mu s; cur := cur s; nq := nq s; in_ref := in_ref s; out_ref := out_ref s; inq := inq s; outq := outq s; cancelled := v; sock_closed := sock_closed s; srv_in := srv_in s; srv_eof := srv_eof s; srv_out := srv_out s; ticks := ticks s; wg := wg s; done_ := done_ s; pcs := pcs s; hist := hist s |}.
+  {| connected := connected s; mu := mu s; cur := cur s; nq := nq s; in_ref := in_ref s; out_ref := out_ref s; inq := inq s; outq := outq s; cancelled := v; sock_closed := sock_closed s; srv_in := srv_in s; srv_eof := srv_eof s; srv_out := srv_out s; ticks := ticks s; wg := wg s; pcs := pcs s; hist := hist s |}.
 Definition set_sock_closed (v : gen -> bool) (s : St) : St :=
-  {| connected := connected s; mu := mu s; cur := cur s; nq := nq s; in_ref := in_ref s; out_ref := out_ref s; inq := inq s; outq := outq s; cancelled := cancelled s; sock_closed := v; srv_in := srv_in s; srv_eof := srv_eof s; srv_out := srv_out s; ticks := ticks s; wg := wg s; done_ := done_ s; pcs := pcs s; hist := hist s |}.
+  {| connected := connected s; mu := mu s; cur := cur s; nq := nq s; in_ref := in_ref s; out_ref := out_ref s; inq := inq s; outq := outq s; cancelled := cancelled s; sock_closed := v; srv_in := srv_in s; srv_eof := srv_eof s; srv_out := srv_out s; ticks := ticks s; wg := wg s; pcs := pcs s; hist := hist s |}.
 Definition set_srv_in (v : gen -> nat) (s : St) : St :=
-  {| connected := connected s; mu := mu s; cur := cur s; nq := nq s; in_ref := in_ref s; out_ref := out_ref s; inq := inq s; outq := outq s; cancelled := cancelled s; sock_closed := sock_closed s; srv_in := v; srv_eof := srv_eof s; srv_out := srv_out s; ticks := ticks s; wg := wg s; done_ := done_ s; pcs := pcs s; hist := hist s |}.
+  {| connected := connected s; mu := mu s; cur := cur s; nq := nq s; in_ref := in_ref s; out_ref := out_ref s; inq := inq s; outq := outq s; cancelled := cancelled s; sock_closed := sock_closed s; srv_in := v; srv_eof := srv_eof s; srv_out := srv_out s; ticks := ticks s; wg := wg s; pcs := pcs s; hist := hist s |}.
 Definition set_srv_eof (v : gen -> bool) (s : St) : St :=
-  {| connected := connected s; mu := mu s; cur := cur s; nq := nq s; in_ref := in_ref s; out_ref := out_ref s; inq := inq s; outq := outq s; cancelled := cancelled s; sock_closed := sock_closed s; srv_in := srv_in s; srv_eof := v; srv_out := srv_out s; ticks := ticks s; wg := wg s; done_ := done_ s; pcs := pcs s; hist := hist s |}.
+  {| connected := connected s; mu := mu s; cur := cur s; nq := nq s; in_ref := in_ref s; out_ref := out_ref s; inq := inq s; outq := outq s; cancelled := cancelled s; sock_closed := sock_closed s; srv_in := srv_in s; srv_eof := v; srv_out := srv_out s; ticks := ticks s; wg := wg s; pcs := pcs s; hist := hist s |}.
 Definition set_srv_out (v : gen -> nat) (s : St) : St :=
-  {| connected := connected s; mu := mu s; cur := cur s; nq := nq s; in_ref := in_ref s; out_ref := out_ref s; inq := inq s; outq := outq s; cancelled := cancelled s; sock_closed := sock_closed s; srv_in := srv_in s; srv_eof := srv_eof s; srv_out := v; ticks := ticks s; wg := wg s; done_ := done_ s; pcs := pcs s; hist := hist s |}.
+  {| connected := connected s; mu := mu s; cur := cur s; nq := nq s; in_ref := in_ref s; out_ref := out_ref s; inq := inq s; outq := outq s; cancelled := cancelled s; sock_closed := sock_closed s; srv_in := srv_in s; srv_eof := srv_eof s; srv_out := v; ticks := ticks s; wg := wg s; pcs := pcs s; hist := hist s |}.
 Definition set_ticks (v : gen -> nat) (s : St) : St :=
-  {| connected := connected s; mu := mu s; cur := cur s; nq := nq s; in_ref := in_ref s; out_ref := out_ref s; inq := inq s; outq := outq s; cancelled := cancelled s; sock_closed := sock_closed s; srv_in := srv_in s; srv_eof := srv_eof s; srv_out := srv_out s; ticks := v; wg := wg s; done_ := done_ s; pcs := pcs s; hist := hist s |}.
+  {| connected := connected s; mu := mu s; cur := cur s; nq := nq s; in_ref := in_ref s; out_ref := out_ref s; inq := inq s; outq := outq s; cancelled := cancelled s; sock_closed := sock_closed s; srv_in := srv_in s; srv_eof := srv_eof s; srv_out := srv_out s; ticks := v; wg := wg s; pcs := pcs s; hist := hist s |}.
 Definition set_wg (v : nat) (s : St) : St :=
-  {| connected := connected s; mu := mu s; cur := cur s; nq := nq s; in_ref := in_ref s; out_ref := out_ref s; inq := inq s; outq := outq s; cancelled := cancelled s; sock_closed := sock_closed s; srv_in := srv_in s; srv_eof := srv_eof s; srv_out := srv_out s; ticks := ticks s; wg := v; done_ := done_ s; pcs := pcs s; hist := hist s |}.
-Definition set_done_ (v : gen -> bool) (s : St) : St :=
-  {| connected := connected s; mu := mu s; cur := cur s; nq := nq s; in_ref := in_ref s; out_ref := out_ref s; inq := inq s; outq := outq s; cancelled := cancelled s; sock_closed := sock_closed s; srv_in := srv_in s; srv_eof := srv_eof s; srv_out := srv_out s; ticks := ticks s; wg := wg s; done_ := v; pcs := pcs s; hist := hist s |}.
+  {| connected := connected s; mu := mu s; cur := cur s; nq := nq s; in_ref := in_ref s; out_ref := out_ref s; inq := inq s; outq := outq s; cancelled := cancelled s; sock_closed := sock_closed s; srv_in := srv_in s; srv_eof := srv_eof s; srv_out := srv_out s; ticks := ticks s; wg := v; pcs := pcs s; hist := hist s |}.
 Definition set_pcs (v : Thr -> pc) (s : St) : St :=
-  {| connected := connected s; mu := mu s; cur := cur s; nq := nq s; in_ref := in_ref s; out_ref := out_ref s; inq := inq s; outq := outq s; cancelled := cancelled s; sock_closed := sock_closed s; srv_in := srv_in s; srv_eof := srv_eof s; srv_out := srv_out s; ticks := ticks s; wg := wg s; done_ := done_ s; pcs := v; hist := hist s |}.
+  {| connected := connected s; mu := mu s; cur := cur s; nq := nq s; in_ref := in_ref s; out_ref := out_ref s; inq := inq s; outq := outq s; cancelled := cancelled s; sock_closed := sock_closed s; srv_in := srv_in s; srv_eof := srv_eof s; srv_out := srv_out s; ticks := ticks s; wg := wg s; pcs := v; hist := hist s |}.
 Definition set_hist (v : list Ev) (s : St) : St :=
-  {| connected := connected s; mu := mu s; cur := cur s; nq := nq s; in_ref := in_ref s; out_ref := out_ref s; inq := inq s; outq := outq s; cancelled := cancelled s; sock_closed := sock_closed s; srv_in := srv_in s; srv_eof := srv_eof s; srv_out := srv_out s; ticks := ticks s; wg := wg s; done_ := done_ s; pcs := pcs s; hist := v |}.
+  {| connected := connected s; mu := mu s; cur := cur s; nq := nq s; in_ref := in_ref s; out_ref := out_ref s; inq := inq s; outq := outq s; cancelled := cancelled s; sock_closed := sock_closed s; srv_in := srv_in s; srv_eof := srv_eof s; srv_out := srv_out s; ticks := ticks s; wg := wg s; pcs := pcs s; hist := v |}.
 
 Definition updf {A} (f : gen -> A) (g : gen) (v : A) : gen -> A :=
   fun x => if Nat.eqb x g then v else f x.
@@ -184,15 +185,26 @@ Definition log (e : Ev) (s : St) : St := set_hist (hist s ++ [e]) s.
 Record shape := { init_first : bool;    (* initialise() before the two guards        (D4, fixed ae2d05c) *)
                   drain_once : bool;    (* drainIn; drainOut; wg.Wait under the lock (D6/D7, fixed 6188a16) *)
                   no_ident : bool;      (* goroutines call Close(): no identity test (D8, fixed e804943) *)
-                  no_watch : bool }.    (* no watcher goroutine                      (D9, fixed 1659575) *)
+                  no_watch : bool;      (* no watcher goroutine                      (D9, fixed 1659575) *)
+                  sample_mu : bool }.   (* Connected() takes conn.mu.RLock           (D12, fixed a078b17) *)
 Definition fixed_shape : shape :=
-  {| init_first := false; drain_once := false; no_ident := false; no_watch := false |}.
+  {| init_first := false; drain_once := false; no_ident := false; no_watch := false; sample_mu := false |}.
 
 Record params := { sh : shape;
                    hmax : nat;          (* a line's foreground handler calls Raw at most hmax times *)
-                   hlock : bool }.      (* do those handlers call Connected() (take conn.mu.RLock)? *)
+                   hlock : bool }.      (* do those handlers call Connected()? *)
 
+(* Connected(): today an atomic read of the flag under its own small lock connectedMu, which is
+   never held while waiting — always enabled.  In the pinned shape it took conn.mu.RLock and
+   so waited while a closer or a connector held the write lock. *)
+Definition can_sample (P : params) (s : St) : bool :=
+  if sample_mu (sh P) then match mu s with None => true | Some _ => false end else true.
+
+Definition is_env (t : Thr) : bool := match t with Env => true | _ => false end.
 Definition after (ret : cont) : pc := match ret with None => PDone | Some p => U p end.
+
+(* where a thread continues when its Connect call returns *)
+Definition fin_pc (inh : bool) (ret : cont) : pc := if inh then PClose C8 None ret else after ret.
 
 Definition ck_of (n : nat) : ckind :=
   match n with 0 => CkOk false | 1 => CkOk true | 2 => CkDialErr | _ => CkNoServer end.
@@ -223,16 +235,15 @@ Section Step.
                | S n => goto (C3 g) (set_inq (updf (inq s) (in_ref s) n) s) | 0 => None end
         | 1 => match outq s (out_ref s) with    (* case <-conn.out *)
                | S n => goto (C3 g) (set_outq (updf (outq s) (out_ref s) n) s) | 0 => None end
-        | _ => if done_ s g then goto (C4 g) s else None      (* case <-done *)
+        | _ => match pcs s (Waiter g) with     (* case <-done: the waiter has closed it *)
+               | PDone => goto (C4 g) s | _ => None end
         end
     | C3a g => goto (C3b g) (set_inq (updf (inq s) (in_ref s) 0) s)
     | C3b g => goto (C3w g) (set_outq (updf (outq s) (out_ref s) 0) s)
     | C3w g => match wg s with 0 => goto (C4 g) s | _ => None end
     | C4 g => goto (C5 g) (set_mu None s)
     | C5 g => goto (C6 g) (log (EDisc g) s)
-    | C6 g => match mu s with
-              | None => goto (C7 g) (log (ESample SDisc g (connected s)) s)
-              | Some _ => None end
+    | C6 g => if can_sample P s then goto (C7 g) (log (ESample SDisc g (connected s)) s) else None
     | C7 g => match ch with
               | 0 => goto C8 s
               | S n => Some (setpc me (PConn K0 (ck_of n) true ret) (log (EConnCall me) s))
@@ -251,7 +262,7 @@ Section Step.
   (* ---- ConnectContext executed by thread me ---- *)
   Definition conn_step (me : Thr) (k : kpc) (ck : ckind) (inh : bool) (ret : cont) (s : St) : option St :=
     let goto k' s' := Some (setpc me (PConn k' ck inh ret) s') in
-    let fin s' := Some (setpc me (if inh then PClose C8 None ret else after ret) s') in
+    let fin s' := Some (setpc me (fin_pc inh ret) s') in
     match k with
     | K0 => match mu s with
             | None => goto (if init_first (sh P) then K2 else K1) (set_mu (Some me) s)
@@ -268,9 +279,7 @@ Section Step.
             end
     | K4 g => goto (K5 g) (set_mu None s)
     | K5 g => goto (K6 g) (log (EReg g) s)
-    | K6 g => match mu s with
-              | None => goto (K7 g) (log (ESample SReg g (connected s)) s)
-              | Some _ => None end
+    | K6 g => if can_sample P s then goto (K7 g) (log (ESample SReg g (connected s)) s) else None
     | K7 g => fin (log (EConnRet me (Some g)) s)
     end.
 
@@ -283,7 +292,12 @@ Section Step.
 
   Definition lstep (s : St) (tid : Tid) : option St :=
     let '(t, ch) := tid in
-    match t, pcs s t with
+    match pcs s t with
+    (* ---- inside closeIf / Connect, whoever runs it ---- *)
+    | PClose c id ret => if is_env t then None else close_step t c id ret ch s
+    | PConn k ck inh ret => if is_env t then None else conn_step t k ck inh ret s
+    | p =>
+    match t, p with
     (* ---- recv of generation g ---- *)
     | Recv g, R0 => Some (setpc t (R1 (cur s)) s)
     | Recv g, R1 rw =>
@@ -312,9 +326,7 @@ Section Step.
                  | 0 => None end
         end
     | Loop g, LS rw k =>
-        match mu s with
-        | None => Some (setpc t (LH rw k) (log (ESample SLine g (connected s)) s))
-        | Some _ => None end
+        if can_sample P s then Some (setpc t (LH rw k) (log (ESample SLine g (connected s)) s)) else None
     | Loop g, LH rw (S k) =>
         match push_out s with Some s' => Some (setpc t (LH rw k) s') | None => None end
     | Loop g, LH rw 0 => Some (setpc t (L1 rw) s)
@@ -349,25 +361,20 @@ Section Step.
     (* ---- watcher and waiter ---- *)
     | Watch g, W1 => if cancelled s g then Some (setpc t (PClose C0 (Some g) None) s) else None
     | Waiter g, T1 => match wg s with
-                      | 0 => Some (setpc t PDone (set_done_ (updf (done_ s) g true) s))
+                      | 0 => Some (setpc t PDone s)       (* close(done) = the waiter is at PDone *)
                       | _ => None end
     (* ---- user goroutines ---- *)
     | User i, U (OpClose :: p) => Some (setpc t (PClose C0 None (Some p)) (log (ECloseCall t) s))
     | User i, U (OpConnect k :: p) => Some (setpc t (PConn K0 k false (Some p)) (log (EConnCall t) s))
     | User i, U (OpRaw n :: p) => Some (setpc t (URaw n p) s)
     | User i, U (OpSample :: p) =>
-        match mu s with
-        | None => Some (setpc t (U p) (log (ESample SUser 0 (connected s)) s))
-        | Some _ => None end
+        if can_sample P s then Some (setpc t (U p) (log (ESample SUser 0 (connected s)) s)) else None
     | User i, URaw (S k) p =>
         match push_out s with Some s' => Some (setpc t (URaw k p) s') | None => None end
     | User i, URaw 0 p => Some (setpc t (U p) s)
-    (* ---- inside closeIf / Connect, whoever runs it ---- *)
-    | _, PClose c id ret => match t with Env => None | _ => close_step t c id ret ch s end
-    | _, PConn k ck inh ret => match t with Env => None | _ => conn_step t k ck inh ret s end
     (* ---- environment: the server closes generation g's socket (choice 2g) or the connect
             context of generation g is cancelled (choice 2g+1) ---- *)
-    | Env, _ =>
+    | Env, PIdle =>
         let g := Nat.div2 ch in
         if (Nat.leb 1 g && Nat.leb g (nq s))%bool then
           if Nat.even ch
@@ -375,6 +382,7 @@ Section Step.
           else Some (log (EEnder g) (set_cancelled (updf (cancelled s) g true) s))
         else None
     | _, _ => None
+    end
     end.
 End Step.
 
@@ -388,7 +396,7 @@ Definition init (w : world) : St :=
   {| connected := false; mu := None; cur := 0; nq := 0; in_ref := 0; out_ref := 0;
      inq := fun _ => 0; outq := fun _ => 0; cancelled := fun _ => false;
      sock_closed := fun _ => false; srv_in := w_srv_in w; srv_eof := fun _ => false;
-     srv_out := w_srv_out w; ticks := w_ticks w; wg := 0; done_ := fun _ => false;
+     srv_out := w_srv_out w; ticks := w_ticks w; wg := 0;
      pcs := fun t => match t with
                      | User i => match nth_error (w_progs w) i with Some p => U p | None => PIdle end
                      | _ => PIdle end;
